@@ -59,8 +59,11 @@ class WorkerRun:
         limit = self.stall_s
         try:
             # a machine that is busy with other work starves the workers: be patient
-            if os.getloadavg()[0] > 1.5 * (os.cpu_count() or 1):
-                limit *= 4
+            la = os.getloadavg()[0] / (os.cpu_count() or 1)
+            if la > 1.5:
+                limit *= 8
+            elif la > 1.0:
+                limit *= 3
         except OSError:
             pass
         if now - max(m, self.t0) > limit and not self.killed:
